@@ -11,7 +11,7 @@ F = "parsing/task_loader.py"
 
 CLASSES = [
     ClassDecl("RawTask", fields={}),          # the dict produced by RawTaskType.load_from_cond_file
-    ClassDecl("File"),
+    ClassDecl("File", ghost={"g_content": "bytes", "g_closed": "bool", "g_path": "Val[Path]", "g_mode": "str"}),
     ClassDecl("TaskLoader", file=F,
               fields={"_project_root": "Val[Path]", "_tasks": "Opt[Dict[str,RawTask]#tasks]",
                       "_current_cond_file_path": "Opt[Val[Path]]", "_conductor_scope": "PyValue",
@@ -39,8 +39,11 @@ LOGIC = Logic(funcs={"Exists": (["Val[Path]"], "bool"),
 
 CONTRACTS = [
     # ------------------------------------------------------------------ assumed library behaviour
-    Contract("ext::open", params={"file": "Val[Path]"}, varargs=True, returns="File", fresh_result=True,
+    Contract("ext::open", params={"file": "Val[Path]", "mode": "str"}, defaults={"mode": "'r'"}, varargs=True, returns="File", fresh_result=True,
+             ensures=["result.g_path == file", "result.g_mode == mode", "not result.g_closed", "result != ext_subprocess_PIPE", "implies(mode == 'wb' or mode == 'w', result.g_content == bempty())"],
              raises={"OSError+": []}, trusted_reason="open(): returns a file object or raises an OSError (FileNotFoundError, PermissionError, ...)"),
+    Contract("ext::with_exit:open", params={"tok": "File"}, modifies=["File.g_closed@tok"], ensures=["tok.g_closed"],
+             trusted_reason="leaving `with open(...)` closes the file"),
     Contract("ext::File.read", returns="str", raises={"Exception+": []}, trusted_reason="file.read(): text or e.g. UnicodeDecodeError"),
     Contract("ext::exec", params={"code": "str"}, varargs=True, modifies=["g_abort_pending"],
              ensures=["g_abort_pending == old(g_abort_pending)"],
